@@ -74,6 +74,8 @@ def _c01():
          "bound": "consume_escaped_char on a backslash + 2 arbitrary tokens"},
         {"name": "c01::c01c_escaped_char_0", "tiers": Q, "flags": ST, "covers": ["end"],
          "bound": "consume_escaped_char on a lone backslash at end of input"},
+        {"name": "c01::c01d_char_helpers", "tiers": Q, "covers": ["end", "upper_hex"],
+         "bound": "hex_char_for / as_hex / is_name / is_name_start / opposite_bracket: every ASCII character, every n < 16 (no unwrap/unreachable inside the callers' preconditions)"},
         {"name": "c18::c19a_relex_2byte_then_ascii", "tiers": Q, "covers": ["end", "text_longer_than_span", "text_fits"],
          "bound": "error-span construction over re-lexed multi-byte text never trips Span::subspan's assertion (span length 0..8)"},
         {"name": "c16::c16a_clamp_none_px_em", "tiers": Q, "flags": ST + ("--no-memory-safety-checks",), "covers": ["kept_calculation"],
